@@ -63,6 +63,7 @@ def run(ctx):
     proved = core.coq_prove(ctx, "C07")
     if ctx.tier == "thorough":
         core.coq_thorough_audit(ctx, "C07")
+    __import__("solverify_common").run(ctx, "C07")   # X12: Messages.sol parseVM / verifySignatures / verifyVM translated in full vs the node, on real signatures
     # implementation: real CalculateQuorum
     rc, out, trace = core.harness_pkg(ctx, "processor", "^TestVerifC07$")
     rows = core.read_jsonl(trace)
